@@ -354,6 +354,15 @@ def solve_check(kind, case, rec):
             ext0 = np.zeros(k0)  # complete unloading from a non-zero state: all prescribed values are zero, the field is not
     else:
         ext0 = None  # documented use: homogeneous prescribed unknowns
+        # ... also from a state that is not zero at the prescribed unknowns (a continuation without ext0): the increment takes them
+        # to zero, du0 = 0 - u0 (only this is compared there: the reduced right-hand side of that call is not specified)
+        for f in fc.fields:
+            f.values[...] = rng.uniform(-1, 1, f.values.shape)
+        u_nz = np.concatenate([f.values.ravel() for f in fc.fields])
+        du_nz = np.asarray(fem.solve.solve(*fem.solve.partition(fc, K, dof1, dof0, None))).ravel()
+        rec.require("shape(ext0=None, non-zero state)", du_nz.size == n)
+        rec.close("prescribed-increments(ext0=None, non-zero state)", float(np.abs(du_nz[dof0] + u_nz[dof0]).max()), 0.0)
+        rec.label("ext0=None-from-a-non-zero-state")
         for f in fc.fields:
             f.values[...] = 0.0
     r = rng.uniform(-1, 1, n) if case["r"] else None
